@@ -42,3 +42,38 @@ Proof.
   - unfold temp_ok. lra.
   - unfold unit_vec, vnorm2, vdot, vx, vy, vz. cbn [fst snd]. ring.
 Qed.
+
+(* ---- further non-vacuity witnesses *)
+Lemma example_defined : pump_spectral_amplitude_defined (omega_p example_setup) example_setup.
+Proof. apply envelope_defined. apply (proj1 example_physical). Qed.
+
+Lemma example_product_hyp :
+  invalid_frequencies 1.2e15 1.2e15 example_setup = false /\ threshold example_setup <= pump_spectral_amplitude (1.2e15 + 1.2e15) example_setup.
+Proof.
+  pose proof example_on_support as Hon. split.
+  - apply not_true_iff_false. rewrite invalid_frequencies_iff. intros H; apply Hon; left; exact H.
+  - apply Rnot_lt_le. intros H; apply Hon; right; exact H.
+Qed.
+
+Lemma example_norm_center :
+  0 <= jsi_normalization 1.2e15 1.2e15 example_setup /\ center_jsa example_setup <> 0 /\ center_jsi_singles example_setup <> 0.
+Proof.
+  destruct example_physical as [Hph Hidx]. destruct example_product_hyp as [Hi Ht].
+  destruct (normalization_defined_pos 1.2e15 1.2e15 example_setup Hph) as (_ & Hn & _ & Hns); try lra; try exact Hidx.
+  destruct (jsa_raw_product _ _ _ Hi Ht) as [Hraw Hsraw].
+  set (a := pump_spectral_amplitude (1.2e15 + 1.2e15) example_setup) in *.
+  assert (Ha : 0 < a) by (unfold a, pump_spectral_amplitude; apply exp_pos).
+  split; [lra|]. split.
+  - unfold center_jsa. change (omega_s0 example_setup) with 1.2e15. change (omega_i0 example_setup) with 1.2e15.
+    rewrite Hraw. cbn [fst snd]. change (pm_re example_setup 1.2e15 1.2e15) with 1. change (pm_im example_setup 1.2e15 1.2e15) with 0.
+    apply Rmult_integral_contrapositive_currified; apply Rgt_not_eq; apply sqrt_lt_R0; [unfold Rdiv; lra|nra].
+  - unfold center_jsi_singles. change (omega_s0 example_setup) with 1.2e15. change (omega_i0 example_setup) with 1.2e15.
+    rewrite Hsraw. change (pm_singles example_setup 1.2e15 1.2e15) with 1.
+    assert (0 < a ^ 2) by (apply pow_lt; assumption). apply Rgt_not_eq. apply Rmult_lt_0_compat; [unfold Rdiv; lra|lra].
+Qed.
+
+Lemma example_indices_everywhere : forall ws wi, indices_pos example_setup ws wi.
+Proof. intros. unfold indices_pos, example_setup. cbn [n_s n_i]. lra. Qed.
+
+Lemma example_cell_area : 1 * grid_sum (fun _ _ => 1) ((0, 0) :: nil) 1 <> 0 /\ (1 : R) <> 0 /\ (1 : R) <> 2.
+Proof. cbn [grid_sum fst snd]. repeat split; lra. Qed.
